@@ -266,6 +266,7 @@ class Module:
         self.init = {}       # name -> int initial value
         self.mems = {}       # name -> (width, depth)
         self.ports = {}      # name -> direction
+        self.kind = {}       # name -> "wire" | "reg"
         self.assigns = []    # (lhs, rhs)
         self.comb = []       # statements (always @*)
         self.sync = []       # (clk name, statement)
@@ -296,11 +297,13 @@ class Module:
             b = self._const(p.expr())
             p.expect("]")
             self.mems[name] = (w, abs(b - a) + 1)
+            self.kind[name] = kind
             return name
         if name in self.width:
             raise VsimError("identifier declared twice: " + name)
         self.width[name] = w
         self.signed[name] = signed
+        self.kind[name] = kind
         if direction:
             self.ports[name] = direction
         if p.accept("="):
@@ -748,6 +751,60 @@ class Module:
             for _, st in s.a[1]:
                 self._taint_targets(st)
             self._taint_targets(s.a[2])
+
+    def legality(self):
+        """violations of IEEE 1364 6.1 / 9.2: continuous assignments drive nets, procedural assignments drive variables"""
+        cont = self.targets(which="assign")
+        proc = self.targets(which="always")
+        out = []
+        for nm in sorted(cont):
+            if self.kind.get(nm) == "reg":
+                out.append("continuous assignment to the variable (reg) %s" % nm)
+        for nm in sorted(proc):
+            if self.kind.get(nm) == "wire":
+                out.append("procedural assignment to the net (wire) %s" % nm)
+        for nm in sorted(cont & proc):
+            out.append("%s is driven by a continuous assignment and by an always block" % nm)
+        return out
+
+    def targets(self, which="all"):
+        """names assigned anywhere in the module (continuous, always blocks); memories included"""
+        out = set()
+
+        def lv(l):
+            if l.k == "cat":
+                for it in l.a[0]:
+                    lv(it)
+                return
+            while l.k in ("idx", "part"):
+                l = l.a[0]
+            if l.k == "id":
+                out.add(l.a[0])
+
+        def walk(s_):
+            if s_ is None:
+                return
+            if s_.k == "assign":
+                lv(s_.a[1])
+            elif s_.k == "block":
+                for x in s_.a[0]:
+                    walk(x)
+            elif s_.k == "if":
+                walk(s_.a[1])
+                walk(s_.a[2])
+            elif s_.k == "case":
+                for _, st in s_.a[1]:
+                    walk(st)
+                walk(s_.a[2])
+        if which in ("all", "assign"):
+            for lhs, _ in self.assigns:
+                lv(lhs)
+        if which in ("all", "always"):
+            for s_ in self.comb:
+                walk(s_)
+            for _, s_ in self.sync:
+                walk(s_)
+        return out
 
     def settle(self):
         """assigns and always @(*) blocks to a fix-point"""
